@@ -40,6 +40,12 @@ def dictionary(wide, n, timeout=600):
               bounds='%d values drawn by symbolic selectors from the concrete alphabet {0, -1, INT_MIN} (every equality pattern over <= 3 distinct values; the hash-table bucket index stays within 3 feasible values)' % n)
 
 
+def dictionary_ba(n, timeout=600):
+    return E2('dict-rt/byte_array/n%d' % n, H, DICT, ['-DVMODE=7', '-DVCNT=%d' % n], ref=['ref_rle.c'], timeout=timeout, leaks=True, max_paths=200000,
+              bounds='%d byte arrays drawn (fork) from a pool of values, their proper prefixes and the empty string that meet in single buckets of the builder\'s hash table, '
+                     'plus one unrelated value, in every order (every selection of the 9 pool entries per position: forks, concrete per path); dictionary page decoded per the PLAIN specification, indices by the reference hybrid decoder' % n)
+
+
 def stream(bw, ops, shape, kmax=12, timeout=900):
     return E2('rle-stream-vs-oneshot/bw%d/%s/ops%d' % (bw, 'carquet-patterns' if shape else 'layouts', ops), H, RLE,
               ['-DVMODE=6', '-DVBW=%d' % bw, '-DVOPS=%d' % ops, '-DVSHAPE=%d' % shape, '-DVKMAX=%d' % kmax], ref=[] if shape else ['ref_rle.c'], timeout=timeout, leaks=True, max_paths=400000,
@@ -68,6 +74,8 @@ def obligations(tier):
     for wide in (0, 1):
         for n in ([1, 3, 5] if q else [0, 1, 2, 3, 4, 5, 6]):
             o.append(dictionary(wide, n))
+    for n in ([2, 3] if q else [1, 2, 3, 4]):
+        o.append(dictionary_ba(n))
     for bw in ([1, 3] if q else [1, 2, 3, 8]):
         o.append(stream(bw, 2 if q else 3, 0, timeout=900 if q else 1500))
         o.append(stream(bw, 2, 1))
